@@ -18,6 +18,21 @@ class PG(Protocol[T_co]):
     def get(self) -> T_co: ...
 class PARG(Protocol):
     def f(self, a: int) -> None: ...
+class PM(Protocol):
+    def q(self) -> "QM": ...
+    def x(self) -> int: ...
+class QM(Protocol):
+    def p(self) -> "PM": ...
+class KMA:
+    def q(self) -> "KMB": ...
+    def x(self) -> str: ...
+class KMB:
+    def p(self) -> "KMA": ...
+class KMC:
+    def q(self) -> "KMD": ...
+    def x(self) -> int: ...
+class KMD:
+    def p(self) -> "KMC": ...
 class K1:
     def m(self) -> int: return 1
 class K1b:
@@ -60,6 +75,8 @@ class KARG4:
 PROTOCOLS = {
     "P1": {"m": ("ret", "int")}, "P2": {"m": ("ret", "str")}, "P12": {"m": ("ret", "int"), "n": ("ret", "str")}, "PA": {"x": ("attr", "int")},
     "PR": {"step": ("ret", ("tuple", "PR", "int"))}, "PG[int]": {"get": ("ret", "int")}, "PG[str]": {"get": ("ret", "str")}, "PARG": {"f": ("arg", "int")},
+    # mutually recursive protocols: PM needs a QM, QM needs a PM
+    "PM": {"q": ("ret", "QM"), "x": ("ret", "int")}, "QM": {"p": ("ret", "PM")},
 }
 CLASSES = {
     "K1": {"m": ("ret", "int")}, "K1b": {"m": ("ret", "bool")}, "K2": {"m": ("ret", "str")}, "K12": {"m": ("ret", "int"), "n": ("ret", "str")},
@@ -67,6 +84,8 @@ CLASSES = {
     "KR1": {"step": ("ret", ("tuple", "KR1", "int"))}, "KR2": {"step": ("ret", ("tuple", "KR2", "str"))}, "KR3": {"step": ("ret", ("tuple", "K0", "int"))},
     "KG1": {"get": ("ret", "int")}, "KG2": {"get": ("ret", "str")},
     "KARG1": {"f": ("arg", "int")}, "KARG2": {"f": ("arg", "str")}, "KARG3": {"f": ("arg", "object")}, "KARG4": {"f": ("arg", None)},
+    # KMA/KMB fail (x returns str): KMB is not a QM either, because its p() returns a KMA, which is not a PM; KMC/KMD conform
+    "KMA": {"q": ("ret", "KMB"), "x": ("ret", "str")}, "KMB": {"p": ("ret", "KMA")}, "KMC": {"q": ("ret", "KMD"), "x": ("ret", "int")}, "KMD": {"p": ("ret", "KMC")},
 }
 SCALAR_SUB = {("bool", "int"), ("int", "object"), ("str", "object"), ("bool", "object")}
 
